@@ -35,6 +35,16 @@ PROPS = {
         exhaustive_part="all op sequences up to the tier's bound over a 15-symbol alphabet for capacities 1..4",
         assumptions=["int keys/values stand for the generic K, V"],
     ),
+    "C08": dict(
+        level_text="Proof: the cache model (association list key -> (value, deadline), every operation parameterised by `now`, janitor = DeleteExpired at tick events) refines the map-with-deadlines spec for every history and every instant: Set stores iff no live entry and the value is accepted, Update always stores, an entry with positive duration d stored at t0 is returned at every now < t0+d and refused at every now > t0+d, entries with deadline <= 0 never expire and are never purged, DeleteExpired removes exactly the expired ones, IsExpired characterised. Tie: exhaustive time-free small-scope + seeded timed scripts executed on the real code under testing/synctest (virtual clock, exact comparison); Lean monitor (set of admitted states; the instant now = deadline is left open as the property leaves it).",
+        level_note="Lean kernel + standard axioms; partial for 'within about one interval': ticker punctuality (time.Ticker under the synctest virtual clock) is assumed, real-clock scheduling is not modelled.",
+        groups=["C08"], quick_shards=16,
+        observers=("count", "list", "get", "isexpired"),
+        rule="configs {-1,0,1000ms} x cleanup {off,50ms} x {int,string} values: all sequences of <= 2 (quick) / 3 (thorough) mutations from a 31-symbol alphabet (Set/Update per key x duration {default,none,long}, rejected values, Delete, Flush, DeleteExpired, MapToCache) with Count/List/Get/IsExpired after each; seeded timed scripts (virtual clock) with sleeps placing observations before/at/after deadlines and cleanup ticks; non-trivial = an expiry was observed (Get error on a stored key or IsExpired true) or a value/duplicate was rejected; distinct = distinct op sequence",
+        exhaustive_part="time-free part: all mutation sequences up to the tier's bound for all 12 configurations",
+        trusted=["testing/synctest virtual clock: timers and tickers fire exactly at their deadline"],
+        assumptions=["keys k0..k2 and int / non-empty-string values stand for the generic K ~string, V any"],
+    ),
     "C09": dict(
         level_text="Proof: the inductive ternary-tree model of trie.go refines the finite map from non-empty byte strings (Get/Contains exact, Size = distinct keys, Keys/StartsWith in byte-lexicographic order, LongestPrefix) for every Put history. Tie: exhaustive small-scope + seeded correspondence incl. non-ASCII bytes; Lean monitor on the implementation's answers.",
         level_note="Lean kernel + standard axioms; result queue modelled as a list (queue.Queue is C05's business).",
